@@ -428,7 +428,17 @@ def r9(rr, repo):
             if isinstance(n, ast.If) and isinstance(n.test, ast.Compare) and isinstance(n.test.ops[0], ast.In) and U(n.test.left) == tgt and any(isinstance(x, ast.Raise) for x in n.body):
                 used = U(n.test.comparators[0])
         recorded = used is not None and any(isinstance(c, ast.Call) and U(c.func) == f'{used}.add' and U(c.args[0]) == tgt for n in after for c in ast.walk(n))
-        fed = used is not None and any(isinstance(c, ast.Call) and U(c.func) == f'{used}.add' and q.enclosing_stmt(c).lineno < st.lineno and any('ipc://' in U(t) for t, pol in q.guards_of(c, stop=pf)) for c in q.calls_in(pf))
+        def over_outputs(c):      # the add sits in a loop over the filter's explicit OUTPUTS (the loop over the sources feeds the set too, but that is C12.R12's business)
+            for a in ancestors(c):
+                if a is pf:
+                    break
+                if isinstance(a, ast.For):
+                    it = U(a.iter)
+                    if 'outputs' in it and 'sources' not in it:
+                        return True
+            return False
+        fed = used is not None and any(isinstance(c, ast.Call) and U(c.func) == f'{used}.add' and q.enclosing_stmt(c).lineno < st.lineno and over_outputs(c) and
+                                       any('ipc://' in U(t) for t, pol in q.guards_of(c, stop=pf)) for c in q.calls_in(pf))
         rr.ob("the allocated ipc name is looked up in the set of ipc outputs already bound (and changed or refused on a clash)", used is not None, mod, st, witness=f'{U(st)[:80]}; looked up in: {used}', key='ipc-alloc-checked')
         loops = [n for n in after if isinstance(n, ast.While) and isinstance(n.test, ast.Compare) and U(n.test.left) == tgt]
         for lp in loops:
